@@ -19,9 +19,10 @@ Sets ==
 
 \* Debug has one code path per (shape, named_field) combination: vary named_field for it
 MCTypeOptSet(k) ==
-  { o \in { [DefOpts EXCEPT !.traits = ts, !.gen = "TU", !.targets = IF ts = <<"Into">> THEN <<"A">> ELSE <<>>, !.dnf = d] :
-              ts \in TraitSetsC11, d \in {"default", "true", "false"} } :
-      o.dnf # "default" => (o.traits = <<"Debug">> /\ k = "struct") }
+  { o \in { [DefOpts EXCEPT !.traits = ts, !.gen = "TU", !.targets = tg, !.dnf = d] :
+              ts \in TraitSetsC11, d \in {"default", "true", "false"}, tg \in {<<>>, <<"A">>, <<"A", "B">>} } :
+      /\ o.dnf # "default" => (o.traits = <<"Debug">> /\ k = "struct")
+      /\ (o.traits = <<"Into">>) = (o.targets # <<>>) }
 MCVarOptSet(c) ==
   { [DefVariant EXCEPT !.style = s, !.dflt = m, !.dnf = d] :
       s \in {"named", "tuple"}, m \in (IF c.kind = "enum" /\ HasTrait(c, "Default") THEN BOOLEAN ELSE {FALSE}),
@@ -37,7 +38,11 @@ Choices(c) ==
       e \in (IF has("PartialEq") /\ Len(c.opts.traits) <= 2 THEN Treatments ELSE {Own}),
       o \in (IF has("PartialOrd") \/ has("Ord") THEN Treatments ELSE {Own}),
       h \in (IF has("Hash") THEN Treatments ELSE {Own}),
-      m \in (IF has("Into") THEN { <<>>, <<[t |-> "A", m |-> FALSE]>>, <<[t |-> "A", m |-> TRUE]>> } ELSE { <<>> }) }
+      m \in (IF ~has("Into") THEN { <<>> }
+             ELSE IF Len(c.opts.targets) = 1 THEN { <<>>, <<[t |-> "A", m |-> FALSE]>>, <<[t |-> "A", m |-> TRUE]>> }
+             \* two targets: one field serves both, or this field serves A only and the next one B
+             ELSE { <<[t |-> "A", m |-> FALSE], [t |-> "B", m |-> FALSE]>>, <<[t |-> "A", m |-> TRUE], [t |-> "B", m |-> FALSE]>>,
+                    <<[t |-> "A", m |-> FALSE]>>, <<[t |-> "A", m |-> TRUE]>> }) }
 
 PhantomField == [DefField EXCEPT !.ty = "PhantomAll"]
 \* the last field of the first variant is a PhantomData mentioning every parameter (so that the item is
@@ -45,6 +50,11 @@ PhantomField == [DefField EXCEPT !.ty = "PhantomAll"]
 \* bounded instance (pruned while building): the first variant has one field with every choice, optionally
 \* a second plain field (struct only), then the phantom; the second variant of an enum is `V2(T)` or `V2(U)`
 PlainFields(c) == { [DefField EXCEPT !.ty = ty] : ty \in {"T", "U"} }
+\* the field that serves the second target when the first field does not (its own type parameter, so that what
+\* one target's impl requires can be told from what the other's does)
+BFields(c) == { [DefField EXCEPT !.ty = ty, !.into = <<[t |-> "B", m |-> FALSE]>>] : ty \in {"T", "U"} }
+TwoTargets(c) == HasTrait(c, "Into") /\ Len(c.opts.targets) = 2
+ServesB(f) == \E k \in DOMAIN f.into : f.into[k].t = "B"
 MCFieldSet(c) ==
   IF NVariants(c) = 0 THEN {}
   ELSE LET lv == Last(c.variants)
@@ -52,7 +62,8 @@ MCFieldSet(c) ==
     IF n > 0 /\ Last(lv.fields).ty = "PhantomAll" THEN {}
     ELSE IF NVariants(c) = 2 THEN (IF n = 0 /\ lv.style = "tuple" /\ ~lv.dflt THEN PlainFields(c) ELSE {})
     ELSE IF n = 0 THEN Choices(c) \cup {PhantomField}
-    ELSE IF n = 1 /\ c.kind = "struct" THEN PlainFields(c) \cup {PhantomField}
+    ELSE IF n = 1 /\ TwoTargets(c) /\ ~ServesB(lv.fields[1]) THEN BFields(c)
+    ELSE IF n = 1 /\ c.kind = "struct" /\ ~TwoTargets(c) THEN PlainFields(c) \cup {PhantomField}
     ELSE {PhantomField}
 
 MCAdmissible(c) ==
@@ -60,7 +71,12 @@ MCAdmissible(c) ==
   /\ NFields(c, 1) >= 1 /\ Last(c.variants[1].fields).ty = "PhantomAll"
   /\ \A v \in 2..NVariants(c) : NFields(c, v) >= 1
   /\ HasTrait(c, "Default") => DefaultWellDesignated(c)
-  /\ HasTrait(c, "Into") => IntoWellDesignated(c)
+  /\ HasTrait(c, "Into") => /\ IntoDesignated(c)
+                             \* a conversion is asked of a bare type parameter (or is the identity): anything else
+                             \* (u8: Into<TA>) would be the user's own ill-typed input
+                             /\ \A v \in 1..NVariants(c) : \A k \in DOMAIN c.opts.targets :
+                                   LET t == c.opts.targets[k] IN
+                                     IntoMode(c, v, t) = "convert" => c.variants[v].fields[IntoField(c, v, t)].ty \in {"T", "U"}
   /\ (HasTrait(c, "PartialOrd") \/ HasTrait(c, "Ord")) => RanksUnique(c)
 
 Init == BuildInit
